@@ -274,3 +274,116 @@ Example C17_live_satisfiable :
   = {| c_result := CValue (lit "answer-of-B"); c_addr := lit "B";
        c_writes := [(lit "A", lit "req"); (lit "B", lit "req")] |}.
 Proof. vm_compute. reflexivity. Qed.
+
+(* --- several callers migrated at once: the protocol of the repaired client, all interleavings --- *)
+
+(* Model: Misc/Migrate.v - K callers (K arbitrary) sharing one client; migrateMutex as reader count and
+   writer; per caller a program counter Idle / Repeat / Sending a / Waiting a g / Redirected x a /
+   Locked x a / Done a; the data centres' behaviour is [pol a i] (None: the result, Some x:
+   PHONE_MIGRATE_x); [reachable pol dcs k a0 s]: s is reached from k idle callers at address a0 by some
+   list of labels (any interleaving, any speed of the data centres).
+   Ties to the code: the protocol is a hand model of makeRequest / tryToProcessErrOf /
+   repeatPendingRequests; the outcomes observed in the live multi-caller scenarios are checked to be
+   outcomes this model can reach (lib/props/c17m.py, extracted [step]). *)
+From MTV Require Import Misc.Migrate Misc.MigrateProofs.
+
+(* (a) at most one caller is between Lock and Unlock; while it is, nobody is sending, nobody can start
+   to send, and nobody else can lock, skip or reconnect *)
+Theorem C17_concurrent_migrate_mutex : forall pol dcs k a0 s i ci x a,
+  reachable pol dcs k a0 s -> at_ s i ci -> c_pc ci = Locked x a ->
+  (forall j cj y b, at_ s j cj -> c_pc cj = Locked y b -> j = i) /\
+  (forall j cj b, at_ s j cj -> c_pc cj <> Sending b) /\
+  (forall j, step pol dcs s (LSend j) = None) /\
+  (forall j, j <> i -> step pol dcs s (LLock j) = None /\ step pol dcs s (LSkip j) = None /\
+                       step pol dcs s (LReconnect j) = None).
+Proof. exact mutual_exclusion. Qed.
+Print Assumptions C17_concurrent_migrate_mutex.
+
+(* (b) equal X (every redirect names the data centre at t, which serves everybody; the client starts
+   elsewhere): however many callers are answered PHONE_MIGRATE_X, the client connects to t at most
+   once and nowhere else; exactly once as soon as a redirected caller is done *)
+Theorem C17_concurrent_migrate_one_connection : forall pol dcs t a0,
+  (forall a i x, pol a i = Some x -> dcs x = t) -> (forall i, pol t i = None) -> a0 <> t ->
+  forall k s, reachable pol dcs k a0 s ->
+  connections t s <= 1 /\ (forall a, a <> t -> connections a s = 0) /\
+  (forall j c, at_ s j c -> c_redir c > 0 -> is_done c = true -> connections t s = 1).
+Proof. exact one_connection. Qed.
+Print Assumptions C17_concurrent_migrate_one_connection.
+
+(* (c) accounting, any X.  Every request a data centre received was written by one of the k callers.
+   Caller j has written its request exactly 1 + (redirects it received) + (times it was woken because
+   another caller migrated the client while it was waiting) times, minus the one write still due when
+   it is Idle / Repeat / Redirected / Locked.  Nobody waits on a closed connection: a waiting caller
+   waits at the client's current address on the live connection.  A caller that is done holds the
+   result of the data centre that received its LAST write, and that data centre serves it. *)
+Theorem C17_concurrent_migrate_accounting : forall pol dcs k a0 s, reachable pol dcs k a0 s ->
+  (forall a i, In (a, i) (log s) -> i < k) /\
+  (forall j c, at_ s j c ->
+     sent j (log s) + owes (c_pc c) = 1 + c_redir c + c_woken c /\
+     (forall a g, c_pc c = Waiting a g -> a = addr s /\ g = gen s /\ last_to j (log s) = Some a) /\
+     (forall a, c_pc c = Done a -> pol a j = None /\ last_to j (log s) = Some a)).
+Proof. exact accounting. Qed.
+Print Assumptions C17_concurrent_migrate_accounting.
+
+(* (c) for equal X "exactly once" is literal: the data centre at t never receives a caller's request
+   twice, and receives it exactly once if it is the one whose answer the caller holds *)
+Theorem C17_concurrent_migrate_received_once : forall pol dcs t a0,
+  (forall a i x, pol a i = Some x -> dcs x = t) -> (forall i, pol t i = None) -> a0 <> t ->
+  forall k s j c, reachable pol dcs k a0 s -> at_ s j c ->
+  received t j (log s) <= 1 /\ (c_pc c = Done t -> received t j (log s) = 1).
+Proof. exact received_once. Qed.
+Print Assumptions C17_concurrent_migrate_received_once.
+
+(* (d) no caller is stuck: a caller that is not done can take a step itself, or it waits for
+   migrateMutex and a holder of the mutex can take a step *)
+Theorem C17_concurrent_migrate_no_caller_stuck : forall pol dcs k a0 s i c,
+  reachable pol dcs k a0 s -> at_ s i c -> is_done c = false ->
+  exists j l s', actor l = j /\ step pol dcs s l = Some s' /\
+    (j = i \/ (exists cj, at_ s j cj /\ (holds_write cj = true \/ holds_read cj = true))).
+Proof. exact no_caller_stuck. Qed.
+Print Assumptions C17_concurrent_migrate_no_caller_stuck.
+
+(* (d) termination, no fairness needed: if every data centre a request is redirected to serves all
+   callers, every step (of a caller or of a data centre) decreases [measure]; so every execution has at
+   most [measure (init k a0)] steps, it can only stop when everybody is done, and everybody who is done
+   has the result for its own request from the data centre that received its last write.
+   (Without the hypothesis two data centres can bounce callers for ever: PHONE_MIGRATE_2 from one,
+   PHONE_MIGRATE_3 from the other - the Go code then migrates for ever too.) *)
+Theorem C17_concurrent_migrate_terminates : forall pol dcs k a0, targets_serve pol dcs k ->
+  (forall ls s, run pol dcs (init k a0) ls = Some s -> length ls + measure pol s <= measure pol (init k a0)) /\
+  (forall s, reachable pol dcs k a0 s -> (forall l, step pol dcs s l = None) -> all_done s = true) /\
+  (forall s j c a, reachable pol dcs k a0 s -> at_ s j c -> c_pc c = Done a ->
+     pol a j = None /\ last_to j (log s) = Some a /\ sent j (log s) = 1 + c_redir c + c_woken c).
+Proof. exact terminates. Qed.
+Print Assumptions C17_concurrent_migrate_terminates.
+
+(* (e) three callers at address 0; the data centre there answers callers 0 and 1 with PHONE_MIGRATE_2
+   (at once) and caller 2 with PHONE_MIGRATE_3; dclist: 2 -> address 1, 3 -> address 2, both serve
+   everybody.  One interleaving: 0 migrates the client to 1, 1 finds it already moved and just repeats,
+   2 migrates the client on to 2 and thereby wakes 1, which repeats once more. *)
+Definition ex_pol (a i : nat) : option nat :=
+  if Nat.eqb a 0 then Some (if Nat.ltb i 2 then 2 else 3) else None.
+Definition ex_dcs (x : nat) : nat := if Nat.eqb x 2 then 1 else 2.
+Definition ex_run : list label :=
+  [LSend 0; LSend 1; LSend 2; LRUnlock 0; LRUnlock 1; LRUnlock 2;
+   LAnswer 0; LAnswer 1; LAnswer 2;
+   LLock 0; LReconnect 0; LSend 0; LRUnlock 0;
+   LLock 1; LSkip 1; LSend 1; LRUnlock 1;
+   LAnswer 0;
+   LLock 2; LReconnect 2; LSend 1; LSend 2; LRUnlock 1; LRUnlock 2; LAnswer 1; LAnswer 2].
+
+Example C17_concurrent_migrate_example :
+  exists s, run ex_pol ex_dcs (init 3 0) ex_run = Some s /\
+    all_done s = true /\
+    List.map c_pc (cs s) = [Done 1; Done 2; Done 2] /\
+    List.map c_woken (cs s) = [0; 1; 0] /\
+    opened s = [1; 2] /\ addr s = 2 /\ writer s = None /\ readers s = 0 /\
+    log s = [(0, 0); (0, 1); (0, 2); (1, 0); (1, 1); (2, 1); (2, 2)] /\
+    length ex_run = 26 /\ measure ex_pol (init 3 0) = 45 /\ measure ex_pol s = 0.
+Proof. eexists. vm_compute. repeat split; reflexivity. Qed.
+
+Example C17_concurrent_migrate_example_hypothesis : targets_serve ex_pol ex_dcs 3.
+Proof.
+  intros a i x Hi Hp. unfold ex_pol in Hp. destruct (Nat.eqb a 0); [|discriminate].
+  injection Hp as <-. destruct (Nat.ltb i 2); reflexivity.
+Qed.
